@@ -65,11 +65,30 @@ pub fn cids_full() -> Vec<Bytes> {
     let mut long2 = long1.clone();
     long1[999] = 1;
     long2[999] = 2;
-    vec![b"alice".to_vec(), vec![], b"a".to_vec(), b"alice2".to_vec(), vec![1u8; 64], long1, long2]
+    let mut v = vec![b"alice".to_vec(), vec![], b"a".to_vec(), b"alice2".to_vec(), vec![1u8; 64], long1, long2];
+    // near-misses a normalisation slip (trim, case folding, NUL termination, prefix match) would confuse
+    v.extend(near_misses(b"alice").into_iter().skip(1));
+    v
 }
 pub fn cids_core() -> Vec<Bytes> {
     let f = cids_full();
-    vec![f[0].clone(), f[1].clone(), f[3].clone(), f[5].clone()]
+    vec![f[0].clone(), f[1].clone(), f[3].clone(), f[5].clone(), f[7].clone(), f[9].clone()]
+}
+/// `base` followed by its near-misses: trailing space, changed case, trailing NUL, proper prefix, leading space,
+/// trailing newline, upper case
+pub fn near_misses(base: &[u8]) -> Vec<Bytes> {
+    let mut cased = base.to_vec();
+    cased[0] = cased[0].to_ascii_uppercase();
+    vec![
+        base.to_vec(),
+        [base, b" "].concat(),
+        cased,
+        [base, &[0u8]].concat(),
+        base[..base.len() - 1].to_vec(),
+        [b" ", base].concat(),
+        [base, b"\n"].concat(),
+        base.to_ascii_uppercase(),
+    ]
 }
 
 /// Identity values.  Index 0 = absent (default).  `own_pk` is appended by the caller where it is known.
